@@ -778,12 +778,23 @@ func (w *world) reportViolation(kind, id, msg string, extra *Term) {
 	var m map[string]*Term
 	r := w.sv.check(extra)
 	w.solverGuard()
+	if r == rUnknown {
+		w.sv.setTimeout(5 * w.sv.timeout)
+		r = w.sv.check(extra)
+		w.sv.setTimeout(w.sv.timeout)
+		w.solverGuard()
+	}
 	if r == rSat {
 		m = w.sv.model(w.tc, w.inputVars())
 		w.solverGuard()
 		w.sv.endModel(extra != nil)
 	} else {
-		m = map[string]*Term{}
+		// no model: without concrete inputs there is nothing to replay and
+		// nothing to report as a violation
+		w.ex.mu.Lock()
+		w.ex.inconcl = append(w.ex.inconcl, kind+" "+id+": no model for the violating path ("+r.String()+")")
+		w.ex.mu.Unlock()
+		return
 	}
 	v := violation{
 		Harness: w.ex.entry.Name(), ID: id, Kind: kind, Msg: msg,
